@@ -5,7 +5,7 @@ for d in seeded/*/; do
   id=$(basename $d); prop=$(python3 -c "import json;print(json.load(open('$d/meta.json'))['property'])")
   [ -f harness/$prop/spec.json ] || { echo "$id $prop: no check yet"; continue; }
   (cd /repo && git apply /verif/$d/patch.diff) || { echo "$id apply failed"; continue; }
-  ./bin/check $prop ${1:-quick} > /tmp/mut_$id.out 2>&1; rc=$?
+  VERIF_NOEVIDENCE=1 ./bin/check $prop ${1:-quick} > /tmp/mut_$id.out 2>&1; rc=$?
   git -C /repo checkout -- .
   echo "$id $prop exit=$rc $(grep -c '^VIOLATION' /tmp/mut_$id.out) violations"
 done
